@@ -243,9 +243,10 @@ def ob_runner_outcome(nw: int, b0: bool, b1: bool, q: int, wk: int, tk: int, kin
 
 @obligation(quick=90, thorough=300, partitions_quick=[f"n == {k}" for k in range(1, 5)], partitions_thorough=[f"n == {k} and tkind == {t}" for k in range(1, 5) for t in range(5)],
             what="the real ExternalAsyncioAdapter.stream_published_events (what handler.stream_events() reads) "
-            "yields exactly the published prefix up to and including the first StopEvent instance, then stops",
+            "yields exactly the published prefix up to and including the first StopEvent instance, then stops - whether the consumer starts "
+            "while the run is live or only after it has finished",
             bounds={"published events": "1..4", "terminal position": "0..3", "terminal class": "Stop/MyStop/Failed/Cancelled/TimedOut"})
-def ob_stream_ends(n: int, pos: int, tkind: int, extra_after: bool) -> bool:
+def ob_stream_ends(n: int, pos: int, tkind: int, extra_after: bool, late: bool = False) -> bool:
     """
     pre: 1 <= n <= 4 and 0 <= pos < n and 0 <= tkind <= 4
     post: _
@@ -285,6 +286,8 @@ def ob_stream_ends(n: int, pos: int, tkind: int, extra_after: bool) -> bool:
         ext = ExternalAsyncioAdapter(rt, q)
         for e in seq:
             q.publish_queue.put_nowait(e)
+        if late:
+            await q.complete          # the consumer only starts reading after the run has finished (e.g. `await handler` first)
         async for e in ext.stream_published_events():
             got.append(e)
 
